@@ -18,6 +18,14 @@
 //!   tensor_chain.distributed_tx.participant/prepared_tx_without_its_lock     a prepared tx does not hold (tx id + handle) the lock of one of its keys
 //!   tensor_chain.distributed_tx.participant/committed_write_lost  a shard no longer holds initial data + the applied writes of commit-decided txs
 //!   tensor_chain.distributed_tx.participant/shards_split          … while another shard still shows the same tx's writes
+//!   tensor_chain.distributed_tx.participant/prepared_together_on_shared_key  two txs are prepared on one shard although an operation of one
+//!                                            and an operation of the other share a logical / storage / write key
+//!   tensor_chain.distributed_tx.participant/abort_undoes_commit_via_storage_key_alias
+//!                                            (regression oracle of 3e4ef1c8) an ABORT delivery changed a storage key that the aborted tx holds an
+//!                                            undo image of and that a commit-decided tx wrote under a DIFFERENT logical key
+//!   tensor_chain.distributed_tx.coordinator/record_vote_phase3_overwrites_decided_phase
+//!                                            (regression oracle of f07ecb9a, two real threads) phase 3 of record_vote answered Prepared for a tx that
+//!                                            another thread had moved to Aborting between the two critical sections
 //! After a model-vs-implementation disagreement, and after a first monitor hit, the rest of the script
 //! still runs on the REAL objects with every monitor armed (each class is reported once per script).
 //!
@@ -159,7 +167,8 @@ impl Op {
     fn undo_key(&self) -> u64 {
         kid(&self.real().storage_key())
     }
-    /// the key `apply_operations` writes (harness mirror; checked by the per-commit store comparison)
+    /// the key `apply_operations` writes (harness mirror of `Transaction::write_key`, deliberately not taken from
+    /// the code so that the harness also builds against a tree without it; checked by the per-commit store comparison)
     fn write_key(&self) -> u64 {
         match self {
             Op::TableUpdate(t, r, _) | Op::TableDelete(t, r) => 40_000 + 100 * t + r,
@@ -414,9 +423,34 @@ impl Real {
             && (self.applied.contains(&(sh, tx)) || self.discarded.contains(&(sh, tx)))
             && !self.parts[sh].get_awaiting_decision().contains(&self.txs[tx].real)
     }
-    /// logical (lock) keys of `tx` on `sh`
+    /// the lock set of `tx` on `sh`: logical, storage and write key of every operation
     fn keys_of(&self, tx: usize, sh: usize) -> Vec<u64> {
-        self.txs[tx].pos(sh).map_or(vec![], |p| self.txs[tx].ops[p].iter().map(Op::key).collect())
+        self.txs[tx].pos(sh).map_or(vec![], |p| self.txs[tx].ops[p].iter().flat_map(|o| [o.key(), o.undo_key(), o.write_key()]).collect())
+    }
+    /// Regression oracle of 3e4ef1c8, evaluated on an ABORT delivery of `tx` to `sh` that changed the shard:
+    /// a changed key that `tx` holds an undo image of (storage key of one of its operations) and whose current
+    /// content was written by a commit-decided OTHER tx through an operation with a different logical key.
+    fn alias_rollback(&self, tx: usize, sh: usize, before: &BTreeMap<u64, String>, after: &BTreeMap<u64, String>) -> Option<String> {
+        let p = self.txs[tx].pos(sh)?;
+        for mine in &self.txs[tx].ops[p] {
+            let k = mine.undo_key();
+            if before.get(&k) == after.get(&k) {
+                continue;
+            }
+            let Some(&w) = self.writer[sh].get(&k) else { continue };
+            if w == tx {
+                continue;
+            }
+            let Some(pw) = self.txs[w].pos(sh) else { continue };
+            if let Some(theirs) = self.txs[w].ops[pw].iter().find(|o| o.write_key() == k && o.key() != mine.key()) {
+                let show = |v: Option<&String>| v.map_or("absent".to_string(), |x| x.to_string());
+                return Some(format!(
+                    "ABORT(tx {tx}) on shard {sh} changed {} from {} to {}: tx {tx} holds its undo image through `{}` (logical key {}), the commit-decided tx {w} wrote it through `{}` (logical key {}); the two were prepared together",
+                    kname(k), show(before.get(&k)), show(after.get(&k)), mine.show(), kname(mine.key()), theirs.show(), kname(theirs.key())
+                ));
+            }
+        }
+        None
     }
     /// storage keys `tx` writes on `sh`
     fn wkeys_of(&self, tx: usize, sh: usize) -> Vec<u64> {
@@ -722,6 +756,7 @@ impl Real {
         let from = self.pool.len();
         let before = self.snapshots();
         let mut applying: Option<(usize, usize)> = None; // (shard, tx) of an applying commit delivery
+        let mut aborting: Option<(usize, usize)> = None; // (shard, tx) of an ABORT delivery
         let res: String = match w.as_slice() {
             ["preload", sh, k, v] => {
                 let (sh, k, v): (usize, u64, u64) = (sh.parse().unwrap(), k.parse().unwrap(), v.parse().unwrap());
@@ -778,6 +813,16 @@ impl Real {
                             let held_after = self.holders(sh);
                             let my_keys = self.keys_of(tx, sh);
                             let other_holds = my_keys.iter().any(|k| held_before.get(k).is_some_and(|h| h.0 != tx as u64));
+                            // a refusal that only the storage-key / write-key locks explain (no logical key in common with a holder)
+                            if !matches!(vote, PrepareVote::Yes { .. }) {
+                                let logical = |t: usize| -> Vec<u64> { self.txs[t].pos(sh).map_or(vec![], |p| self.txs[t].ops[p].iter().map(Op::key).collect()) };
+                                let mine_logical = logical(tx);
+                                let clash: Vec<(u64, u64)> = my_keys.iter().filter_map(|k| held_before.get(k).filter(|h| h.0 != tx as u64).map(|h| (*k, h.0))).collect();
+                                let by_logical = clash.iter().any(|(k, h)| mine_logical.contains(k) && (*h as usize) < self.txs.len() && logical(*h as usize).contains(k));
+                                if !clash.is_empty() && !by_logical {
+                                    self.hits.push("alias.refused_by_storage_or_write_key_only".into());
+                                }
+                            }
                             if finished {
                                 self.hits.push(format!(
                                     "late.prepare_finished.{}",
@@ -799,13 +844,38 @@ impl Real {
                                             "tensor_chain.distributed_tx.participant/prepare_takes_lock_of_other_tx"
                                         },
                                         what: format!(
-                                            "PREPARE(tx {tx}) delivered to shard {sh}{} was answered {}: the lock on k{k} moved from tx {} to {now}",
+                                            "PREPARE(tx {tx}) delivered to shard {sh}{} was answered {}: the lock on {} moved from tx {} to {now}",
                                             if finished { format!(" where tx {tx} is already finished (applied {:?}, discarded {:?})", self.applied, self.discarded) } else { String::new() },
                                             self.show_vote(&vote),
+                                            kname(*k),
                                             h.0
                                         ),
                                     });
                                     break;
+                                }
+                            }
+                            // a YES leaves no OTHER prepared tx on the shard that shares a logical / storage / write key with this one
+                            if matches!(vote, PrepareVote::Yes { .. }) {
+                                let mine: Vec<String> = self.txs[tx].pos(sh).map_or(vec![], |p| {
+                                    self.txs[tx].ops[p].iter().map(Op::real).flat_map(|o| [o.affected_key().to_string(), o.storage_key(), kname(Op::of_real(&o).map_or(999_999, |x| x.write_key()))]).collect()
+                                });
+                                let st = self.parts[sh].to_state();
+                                'pt: for pt in st.prepared.values().filter(|pt| pt.tx_id != self.txs[tx].real) {
+                                    for o in &pt.operations {
+                                        let theirs = [o.affected_key().to_string(), o.storage_key(), kname(Op::of_real(o).map_or(999_999, |x| x.write_key()))];
+                                        if let Some(k) = theirs.iter().find(|k| mine.contains(k)) {
+                                            self.viol.push(Violation {
+                                                class: "tensor_chain.distributed_tx.participant/prepared_together_on_shared_key",
+                                                what: format!(
+                                                    "PREPARE(tx {tx}) [{}] was answered YES on shard {sh} while tx {} [{}] is prepared there: both reach {k}",
+                                                    show_ops(&self.txs[tx].ops[self.txs[tx].pos(sh).unwrap_or(0)]),
+                                                    self.dense(pt.tx_id),
+                                                    show_real_ops(&pt.operations)
+                                                ),
+                                            });
+                                            break 'pt;
+                                        }
+                                    }
                                 }
                             }
                             self.votes_cast.entry((tx, sh)).or_default().push(matches!(vote, PrepareVote::Yes { .. }));
@@ -873,6 +943,7 @@ impl Real {
                             let real = self.txs[tx].real;
                             let finished = self.finished_on(sh, tx);
                             let was = self.parts[sh].get_awaiting_decision().contains(&real);
+                            aborting = Some((sh, tx));
                             let _ = self.parts[sh].abort(real);
                             let still = self.parts[sh].get_awaiting_decision().contains(&real);
                             if finished || (was && self.discarded.contains(&(sh, tx))) {
@@ -1076,6 +1147,11 @@ impl Real {
         match applying {
             None => {
                 if before != after {
+                    if let Some((sh, tx)) = aborting {
+                        if let Some(what) = self.alias_rollback(tx, sh, &before[sh], &after[sh]) {
+                            self.viol.push(Violation { class: "tensor_chain.distributed_tx.participant/abort_undoes_commit_via_storage_key_alias", what });
+                        }
+                    }
                     self.viol.push(Violation {
                         class: "tensor_chain.2pc/abort_changed_shard",
                         what: format!("event `{line}` is not an applying commit delivery but changed shard data: {before:?} -> {after:?}"),
@@ -1103,19 +1179,22 @@ impl Real {
             let st = self.parts[sh].to_state();
             for pt in st.prepared.values() {
                 for op in &pt.operations {
-                    let key = op.affected_key();
-                    let ok = st.lock_state.locks().get(key).is_some_and(|l| l.tx_id == pt.tx_id && l.lock_handle == pt.lock_handle);
-                    if !ok {
-                        let holder = st.lock_state.locks().get(key).map_or("nobody".to_string(), |l| format!("tx {}", self.dense(l.tx_id)));
-                        self.viol.push(Violation {
-                            class: "tensor_chain.distributed_tx.participant/prepared_tx_without_its_lock",
-                            what: format!(
-                                "after `{line}`: tx {} is prepared on shard {sh} but the lock on k{} is held by {holder}",
-                                self.dense(pt.tx_id),
-                                kid(key)
-                            ),
-                        });
-                        break 'locks;
+                    // logical key, storage key (undo image) and write key of every operation
+                    let keys = [op.affected_key().to_string(), op.storage_key(), kname(Op::of_real(op).map_or(999_999, |x| x.write_key()))];
+                    for key in &keys {
+                        let ok = st.lock_state.locks().get(key).is_some_and(|l| l.tx_id == pt.tx_id && l.lock_handle == pt.lock_handle);
+                        if !ok {
+                            let holder = st.lock_state.locks().get(key).map_or("nobody".to_string(), |l| format!("tx {}", self.dense(l.tx_id)));
+                            self.viol.push(Violation {
+                                class: "tensor_chain.distributed_tx.participant/prepared_tx_without_its_lock",
+                                what: format!(
+                                    "after `{line}`: tx {} is prepared on shard {sh} with `{}` but the lock on {key} is held by {holder}",
+                                    self.dense(pt.tx_id),
+                                    Op::of_real(op).map_or("?".to_string(), |o| o.show())
+                                ),
+                            });
+                            break 'locks;
+                        }
                     }
                 }
             }
@@ -1134,7 +1213,8 @@ impl Real {
                 self.viol.push(Violation {
                     class: "tensor_chain.distributed_tx.participant/committed_write_lost",
                     what: format!(
-                        "after `{line}`: tx {t} was decided commit and applied on shard {sh}, which must hold k{k} = {} but holds {} (decisions {:?})",
+                        "after `{line}`: tx {t} was decided commit and applied on shard {sh}, which must hold {} = {} but holds {} (decisions {:?})",
+                        kname(k),
                         show(self.expect[sh].get(&k)),
                         show(after[sh].get(&k)),
                         self.decided
@@ -1150,8 +1230,9 @@ impl Real {
                     self.viol.push(Violation {
                         class: "tensor_chain.distributed_tx.participant/shards_split",
                         what: format!(
-                            "after `{line}`: committed tx {t}: shard {s2} holds its writes ({:?}), shard {sh} lost k{k} (holds {}, must hold {})",
+                            "after `{line}`: committed tx {t}: shard {s2} holds its writes ({:?}), shard {sh} lost {} (holds {}, must hold {})",
                             after[s2],
+                            kname(k),
                             show(after[sh].get(&k)),
                             show(self.expect[sh].get(&k))
                         ),
@@ -1259,9 +1340,9 @@ fn run_script(m: &mut Model, rep: &mut Report, stream: &str, setup: &Setup, line
         // it is a no-op on the code as it is, i.e. the MODEL has no prepared record to discard at that
         // point of the same script; otherwise the rest of the script is outside (observations only).
         let cleanup_noop = is_cleanup(line) && ma.starts_with("ids - ");
-        // Every other event the MODEL flags as outside the alphabet (a `begin` that breaks the lock
-        // discipline, a forged YES in the name of a real participant, a tick that expires a lock)
-        // puts the rest of the script outside the quantifier as well.
+        // Every other event the MODEL flags as outside the alphabet (a forged YES in the name of a real
+        // participant, a tick that expires a lock) puts the rest of the script outside the quantifier as
+        // well.  (A `begin` is never outside: the workload is unrestricted since 3e4ef1c8.)
         if ma.contains(" !outside") && !cleanup_noop {
             outside = true;
         }
@@ -1355,8 +1436,11 @@ fn gen_ops(r: &mut Rng, nkeys: u64) -> Vec<Op> {
 }
 
 /// `mixed`: all ten `Transaction` kinds over the logical names `base..base+nkeys` (rows 0..2, edge
-/// targets / types 0..3, values 1..4 so that CompareAndSwap expectations match often).  Logical names
-/// are plain `k<n>` names, so such a workload keeps the lock discipline.
+/// targets / types 0..3, values 1..4 so that CompareAndSwap expectations match often).  A fifth of the
+/// operations of a mixed workload are ALIASES: Put / Delete / CompareAndSwap addressed directly to the
+/// storage key that a prefixed kind reaches through its logical name (`"emb:k1"`, `"node:k1"`,
+/// `"table:k1"`, `"table:k1:row:0"`, `"edge:k1:k0:k2"`) — the transactions that only the storage-key
+/// and write-key locks of `prepare` keep apart from `Embed{k1}`, `NodeCreate{k1}`, `Table*{k1}`, ….
 fn gen_ops_kinds(r: &mut Rng, nkeys: u64, base: u64, mixed: bool) -> Vec<Op> {
     let n = 1 + r.below(2);
     (0..n)
@@ -1366,6 +1450,20 @@ fn gen_ops_kinds(r: &mut Rng, nkeys: u64, base: u64, mixed: bool) -> Vec<Op> {
                 return if r.chance(3, 4) { Op::Put(k, 1 + r.below(200)) } else { Op::Del(k) };
             }
             let v = 1 + r.below(4);
+            if r.chance(1, 5) {
+                let sk = match r.below(6) {
+                    0 | 1 => 10_000 + k,
+                    2 => 20_000 + k,
+                    3 => 30_000 + k,
+                    4 => 40_000 + 100 * k + r.below(2),
+                    _ => 50_000 + 100 * k + 10 * r.below(3) + r.below(3),
+                };
+                return match r.below(5) {
+                    0..=2 => Op::Put(sk, v),
+                    3 => Op::Del(sk),
+                    _ => Op::Cas(sk, if r.chance(1, 2) { None } else { Some(1 + r.below(4)) }, v),
+                };
+            }
             match r.below(20) {
                 0..=4 => Op::Put(k, v),
                 5 | 6 => Op::Del(k),
@@ -1832,30 +1930,42 @@ fn directed_forged() -> Vec<(&'static str, Setup, Vec<String>)> {
     ]
 }
 
-/// Two transactions reach the SAME storage key under DIFFERENT logical keys (`a` through a prefixed
-/// kind, `b` by naming the prefixed key directly): the workload breaks the lock discipline, both are
-/// prepared together on shard 0, T1 (`b`) commits on both shards, T0 (`a`) times out and its ABORT
-/// re-installs T0's undo image over T1's committed write.  Lean:
-/// `abort_restores_shard_without_lock_discipline_witness`.
-fn alias_histories() -> Vec<(&'static str, Setup, Vec<String>)> {
+/// Regression histories of 3e4ef1c8, run first.  Two transactions reach the SAME storage key under
+/// DIFFERENT logical keys (`a` through a prefixed kind, `b` by naming the prefixed key directly).  Before
+/// the repair `prepare` locked only `affected_key()`: both were prepared together on shard 0, T1 (`b`)
+/// committed on both shards, T0 (`a`) timed out and its ABORT re-installed T0's undo image over T1's
+/// committed write (Lean: `abort_undoes_commit_via_storage_key_alias_old_lock_set_witness`).  On the code
+/// as it is the second PREPARE on shard 0 is answered CONFLICT, that transaction is aborted and no shard
+/// changes (Lean: `storage_key_alias_is_refused`).  `/rev`: the two PREPAREs reach shard 0 in the other
+/// order.  `put-row-key-vs-table-update` is the one history that needs the WRITE key in the lock set.
+fn alias_histories() -> Vec<(String, Setup, Vec<String>)> {
     let s2 = || Setup { n: 2, t_units: 2, maxc: 100, lock_to: 1000, wallclock: false, age_parts: false, recovery: false };
     let b = |sh: &[usize], ops: &[&str], embs: &[u64]| begin_line(sh, &ops.iter().map(|o| parse_ops(o)).collect::<Vec<_>>(), embs);
-    let mk = |a: &str, bb: &str| {
+    let mk = |a: &str, bb: &str, rev: bool| {
         let mut v = vec![b(&[0, 1], &[a, "p2=8"], &[1, 2]), b(&[0, 1], &[bb, "p3=10"], &[1, 2])];
-        for l in ["deliver 0", "deliver 2", "deliver 3", "deliver 5", "deliver 6", "ccommit 1", "deliver 7", "deliver 8", "tick 3", "sweep", "deliver 9"] {
+        // 0,1 = PREPARE(T0); 2,3 = PREPARE(T1); 4,5 = the two answers of shard 0; 6 = shard 1's YES for T1
+        let first = if rev { ["deliver 2", "deliver 0"] } else { ["deliver 0", "deliver 2"] };
+        let votes = if rev { ["deliver 4", "deliver 6"] } else { ["deliver 5", "deliver 6"] };
+        for l in first.iter().chain(["deliver 3"].iter()).chain(votes.iter()).chain(["ccommit 1", "deliver 7", "deliver 8", "tick 3", "sweep", "deliver 9", "deliver 10", "deliver 11", "deliver 12"].iter()) {
             v.push(l.to_string());
         }
         v
     };
-    vec![
-        ("embed-vs-put-emb-key", s2(), mk("e1=7", "p10001=9")),
-        ("node-create-vs-put-node-key", s2(), mk("n1=7", "p20001=9")),
-        ("table-insert-vs-put-table-key", s2(), mk("i1=7", "p30001=9")),
-        ("table-update-vs-put-table-key", s2(), mk("u1.2=7", "p30001=9")),
-        ("edge-create-vs-put-edge-key", s2(), mk("g1.2.3=0".trim_end_matches("=0"), "p50123=9")),
-        ("put-row-key-vs-table-update", s2(), mk("p40102=7", "u1.2=9")),
-        ("delete-emb-key-vs-embed", s2(), mk("d10001", "e1=9")),
-    ]
+    let pairs: [(&str, &str, &str); 7] = [
+        ("embed-vs-put-emb-key", "e1=7", "p10001=9"),
+        ("node-create-vs-put-node-key", "n1=7", "p20001=9"),
+        ("table-insert-vs-put-table-key", "i1=7", "p30001=9"),
+        ("table-update-vs-put-table-key", "u1.2=7", "p30001=9"),
+        ("edge-create-vs-put-edge-key", "g1.2.3", "p50123=9"),
+        ("put-row-key-vs-table-update", "p40102=7", "u1.2=9"),
+        ("delete-emb-key-vs-embed", "d10001", "e1=9"),
+    ];
+    let mut out = vec![];
+    for (name, a, bb) in pairs {
+        out.push((name.to_string(), s2(), mk(a, bb, false)));
+        out.push((format!("{name}/rev"), s2(), mk(a, bb, true)));
+    }
+    out
 }
 
 /// The two counter-traces over the EXTENDED alphabet (Lean: `…_outside_quantifier_witness`).
@@ -1888,14 +1998,18 @@ fn witnesses() -> Vec<(&'static str, Setup, Vec<String>)> {
 }
 
 /// `record_vote` is two critical sections with an unlocked similarity computation between them
-/// (Lean: VoteSplit.lean).  Two REAL threads: thread A delivers the last participant's YES with a
-/// delta large enough that phase 2 takes milliseconds; the main thread waits until A is inside
-/// `record_vote` and then delivers a stray NO tagged with a non-participant shard, which blocks on the
-/// `pending` lock until A's phase 1 is over and is then recorded while A computes.  Observation only:
-/// `cluster.rs` calls `record_vote` from a single loop.
-fn record_vote_race(rep: &mut Report) {
-    use std::sync::atomic::{AtomicBool, Ordering};
+/// (Lean: VoteSplit.lean).  Regression oracle of f07ecb9a with two REAL threads: thread A delivers the
+/// last participant's YES with a delta large enough that phase 2 takes milliseconds; the main thread
+/// waits until A's vote is visible in `pending` (A's phase 1 is over) and then delivers a stray NO
+/// tagged with a non-participant shard, which is recorded while A computes.  The interleaving is
+/// CONFIRMED by the real answers alone: the stray NO is answered `Aborting` exactly when it was
+/// recorded after A's phase 1 (everybody has voted) and before A's phase 3 (still `Preparing`).  On a
+/// confirmed interleaving the three answers (B's, A's, the commit call) are compared with the model's
+/// `recordVoteInterleaved` (driver line `race`), and the property is evaluated on them: A must not
+/// answer `Prepared` and the commit must be refused, since an abort broadcast is queued.
+fn record_vote_race(rep: &mut Report, m: &mut Model) {
     use std::sync::Arc;
+    const CLASS: &str = "tensor_chain.distributed_tx.coordinator/record_vote_phase3_overwrites_decided_phase";
     let cfg = DistributedTxConfig { prepare_timeout_ms: 10 * UNIT, max_concurrent: 10, ..DistributedTxConfig::default() };
     let n = 1_000_000usize;
     let half = |second: bool| {
@@ -1906,9 +2020,17 @@ fn record_vote_race(rep: &mut Report) {
         }
         SparseVector::from_dense(&d)
     };
-    let mut out = json!(null);
-    let mut reproduced = false;
-    for attempt in 0..3 {
+    let show = |r: &std::result::Result<Option<TxPhase>, VoteRecordError>| match r {
+        Ok(None) => "voted none".to_string(),
+        Ok(Some(p)) => format!("voted {}", format!("{p:?}").to_lowercase()),
+        Err(VoteRecordError::TxNotFound(_)) => "verr not_found".into(),
+        Err(VoteRecordError::WrongPhase { actual, .. }) => format!("verr wrong_phase {}", format!("{actual:?}").to_lowercase()),
+        Err(VoteRecordError::DuplicateVote { .. }) => "verr duplicate".into(),
+    };
+    let script = ["init 0 10 10 1000", "begin 0,1 -/- -", "cvote 0 0 y0:1 -", "race 0 1 y1:2 5 n -", "ccommit 0"];
+    let mut confirmed = 0;
+    let mut last_out = json!(null);
+    for attempt in 0..6 {
         let coord = Arc::new(mk_coord(&cfg));
         let tx = coord.begin(&"c".to_string(), &[0, 1]).expect("begin").tx_id;
         let yes = |h: u64, second: bool, key: &str| PrepareVote::Yes {
@@ -1917,38 +2039,63 @@ fn record_vote_race(rep: &mut Report) {
         };
         let first = coord.record_vote(tx, 0, yes(0, false, "k1"));
         let vote_b = yes(1, true, "k2");
-        let started = Arc::new(AtomicBool::new(false));
-        let (c2, s2) = (coord.clone(), started.clone());
-        let a = std::thread::spawn(move || {
-            s2.store(true, Ordering::SeqCst);
-            c2.record_vote(tx, 1, vote_b)
-        });
-        while !started.load(Ordering::SeqCst) {
+        let c2 = coord.clone();
+        let a = std::thread::spawn(move || c2.record_vote(tx, 1, vote_b));
+        // A's phase 1 is over as soon as its vote is visible (`get` takes the read lock on `pending`)
+        let t0 = std::time::Instant::now();
+        while !coord.get(tx).is_some_and(|t| t.votes.contains_key(&1)) && t0.elapsed() < Duration::from_secs(20) {
             std::hint::spin_loop();
         }
-        std::thread::sleep(Duration::from_millis(1));
         let stray = coord.record_vote(tx, 5, PrepareVote::No { reason: "stray".into() });
         let last = a.join().expect("thread A");
         let queued = coord.take_pending_aborts();
         let phase = coord.get(tx).map(|t| format!("{:?}", t.phase));
         let commit_ok = coord.commit(tx).is_ok();
-        let hit = matches!(stray, Ok(Some(TxPhase::Aborting))) && matches!(last, Ok(Some(TxPhase::Prepared))) && !queued.is_empty() && commit_ok;
-        out = json!({
-            "observation": "record_vote_phase3_overwrites_concurrent_abort",
-            "attempt": attempt,
-            "first_yes": format!("{first:?}"), "stray_no_between_the_phases": format!("{stray:?}"), "last_yes": format!("{last:?}"),
+        let interleaved = matches!(stray, Ok(Some(TxPhase::Aborting)));
+        let input = json!({
+            "probe": "record-vote-threads", "attempt": attempt,
+            "thread_main": ["begin [0,1]", "record_vote(tx, 0, YES)", "wait until shard 1's vote is visible", "record_vote(tx, 5, NO)", "take_pending_aborts", "commit(tx)"],
+            "thread_A": ["record_vote(tx, 1, YES with a 2M-dimensional delta)"],
+            "first_yes": show(&first), "stray_no_between_the_phases": show(&stray), "last_yes": show(&last),
             "abort_broadcasts_queued": queued.len(), "phase_after": phase, "commit_succeeded": commit_ok,
-            "reproduced_on_real_objects": hit,
-            "note": "a transaction with an ABORT broadcast in the queue was committed: phase 3b of record_vote sets Prepared without re-checking that the tx is still Preparing. Needs two threads in record_vote (the &self API allows it; cluster.rs does not do it). Lean: record_vote_interleaved_phases_decide_twice_outside_quantifier_witness; proposed/C03-record-vote-phase3-recheck.diff"
         });
-        if hit {
-            reproduced = true;
-            break;
+        last_out = input.clone();
+        if !interleaved {
+            rep.hit("race.record_vote.window_missed");
+            continue;
         }
+        confirmed += 1;
+        rep.hit("race.record_vote.interleaving_confirmed");
+        // ---- the property on the real answers
+        let overwrote = matches!(last, Ok(Some(TxPhase::Prepared))) || phase.as_deref() == Some("Prepared");
+        if overwrote {
+            rep.violation(
+                CLASS,
+                &format!(
+                    "two threads in record_vote: the stray NO recorded between the two critical sections of the last YES was answered {} ({} abort broadcast queued); phase 3 of the last YES then answered {} (phase {:?}) and commit() {}",
+                    show(&stray), queued.len(), show(&last), phase, if commit_ok { "SUCCEEDED: the transaction has an ABORT broadcast and a commit decision" } else { "was refused" }
+                ),
+                input.clone(),
+            );
+        } else if commit_ok && !queued.is_empty() {
+            rep.violation("tensor_chain.2pc/decision_changed", "two threads in record_vote: commit() succeeded for a transaction with a queued abort broadcast", input.clone());
+        }
+        // ---- correspondence with the model's interleaving (VoteSplit.lean `recordVoteInterleaved`)
+        let mut model = vec![];
+        for l in script {
+            model.push(m.ask(l));
+        }
+        let impl_ans = format!("{} | race {} / {} | {}", show(&first), show(&stray), show(&last), if commit_ok { "ok" } else { "err wrong_phase" });
+        let head = |x: &str| x.split(" | ").next().unwrap_or("").trim_end_matches(" |").to_string();
+        let model_ans = format!("{} | {} | {}", head(&model[2]), head(&model[3]), head(&model[4]));
+        rep.compare("record-vote-threads", || input.clone(), &impl_ans, &model_ans);
+        break; // one confirmed interleaving is the case
     }
-    rep.case("record-vote-threads", None);
-    rep.hit(if reproduced { "race.record_vote.reproduced" } else { "race.record_vote.not_reproduced" });
-    rep.observe(out);
+    rep.case("record-vote-threads", if confirmed > 0 { Some("race 0 1 y1:2 5 n") } else { None });
+    if confirmed == 0 {
+        rep.note("record-vote-threads: the stray NO never landed between the two critical sections of the last YES (6 attempts): the regression oracle of f07ecb9a was not exercised in this run");
+        rep.observe(json!({"probe": "record-vote-threads", "window_missed": true, "last_attempt": last_out}));
+    }
 }
 
 const EXPECTED: &[&str] = &[
@@ -1966,6 +2113,7 @@ const EXPECTED: &[&str] = &[
     "forged.stray_shard.verr_not_found", "forged.participant_or_unknown_tx.voted_none",
     "forged.participant_or_unknown_tx.voted_aborting", "forged.participant_or_unknown_tx.verr_duplicate",
     "forged.participant_or_unknown_tx.verr_not_found",
+    "alias.second_prepare_refused", "alias.refused_by_storage_or_write_key_only", "race.record_vote.interleaving_confirmed",
     "crecover.decisions", "crecover.no_decision", "ccomplete_commit.ok", "ccomplete_commit.not_found", "ccomplete_commit.wrong_phase",
     "ccomplete_abort.ok", "ccomplete_abort.not_found", "ccomplete_abort.wrong_phase", "cforce.ok", "cforce.not_found", "cforce.wrong_phase",
 ];
@@ -2045,7 +2193,30 @@ fn main() {
         }
     }
 
-    // ---- the late-duplicate history in its variants, first
+    // ---- regression histories of 3e4ef1c8 (storage-key aliases), first: inside the quantifier, every monitor armed
+    // (`--skip-directed-alias`: mutation-testing aid, to see what the random streams find on their own)
+    let skip_alias = args.extra.iter().any(|a| a == "--skip-directed-alias");
+    for (name, setup, lines) in alias_histories().into_iter().filter(|_| !skip_alias) {
+        let o = run_script(&mut m, &mut rep, "directed-alias", &setup, &lines, true);
+        // on the code as it is: the second PREPARE on shard 0 is refused, its transaction aborts, nothing is written on shard 0
+        let refused = o.tags.iter().any(|t| t == "prepare.conflict");
+        rep.hit(if refused { "alias.second_prepare_refused" } else { "alias.prepared_together" });
+        if o.violations.is_empty() && !o.disagreed && !refused {
+            rep.note(&format!("directed-alias history {name} did not reach the refusal of the aliasing PREPARE"));
+        }
+        if o.tags.iter().any(|t| t == "outside_alphabet_event") {
+            rep.note(&format!("directed-alias history {name} left the alphabet (model flagged an event !outside)"));
+        }
+        record(&mut rep, &mut m, "directed-alias", &setup, &lines, &o);
+        if name == "put-row-key-vs-table-update" {
+            rep.sample(json!({"stream": "directed-alias", "name": name, "setup": setup.init_line(), "script": lines}));
+        }
+    }
+
+    // ---- two real threads inside record_vote: regression oracle of f07ecb9a
+    record_vote_race(&mut rep, &mut m);
+
+    // ---- the late-duplicate history in its variants
     // (`--skip-directed-late`: mutation-testing aid, to see what the random streams find on their own)
     let skip_late = args.extra.iter().any(|a| a == "--skip-directed-late");
     for (name, setup, lines) in directed_late().into_iter().filter(|_| !skip_late) {
@@ -2217,30 +2388,6 @@ fn main() {
     rep.observe(json!({"stream": "outside-quantifier random schedules", "monitor_hits_by_class": ext_hits,
         "note": "with lock expiry / cleanup_stale / recover in the alphabet the monitors do fire; by design these are not violations of C03"}));
 
-    // ---- workloads that break the lock discipline (same storage key under two logical keys): the
-    //      model flags the second `begin` as outside the alphabet; what the monitors then see on the
-    //      REAL objects is recorded as an observation (candidate finding, not yet a violation)
-    for (name, setup, lines) in alias_histories() {
-        let o = run_script(&mut m, &mut rep, "lock-discipline", &setup, &lines, true);
-        rep.case("lock-discipline", None);
-        for t in &o.tags {
-            rep.hit(t);
-        }
-        let lost = o.observations.iter().any(|x| x.starts_with("tensor_chain.2pc/abort_changed_shard"));
-        rep.hit(if lost { "alias.abort_changed_shard" } else { "alias.harmless" });
-        rep.observe(json!({
-            "candidate_finding": "tensor_chain.distributed_tx.participant/abort_undoes_commit_via_storage_key_alias",
-            "history": name, "setup": setup.init_line(), "script": lines,
-            "reproduced_on_real_objects": lost && !o.disagreed,
-            "in_quantifier_violations": o.violations.iter().map(|v| v.0.clone()).collect::<Vec<_>>(),
-            "monitor_hits": o.observations,
-            "note": "prepare() locks Transaction::affected_key() but captures / restores Transaction::storage_key(): two transactions that reach one storage key under different logical keys are prepared together, and the abort of one rolls back the other's committed write. The theorems assume the lock discipline (Model.lean lockDiscipline); Lean witness abort_restores_shard_without_lock_discipline_witness. Recorded as an observation until the coordinator decides."
-        }));
-        if !(lost && !o.disagreed) {
-            rep.note(&format!("lock-discipline history {name} did NOT reproduce on the real objects (behaviour changed?)"));
-        }
-    }
-
     // ---- the two counter-traces over the extended alphabet: observations, never violations
     for (name, setup, lines) in witnesses() {
         let o = run_script(&mut m, &mut rep, "outside-quantifier", &setup, &lines, false);
@@ -2287,6 +2434,9 @@ fn main() {
                 v.extend(l(&["crecover", "deliver 4", "deliver 5", "ccomplete_abort 0", "ccomplete_commit 0", "ccomplete_commit 0"]));
                 v.push(b(&[0, 1], &["p1=8", "p3=1"], &[1, 2])); // 6,7 = PREPARE(T1)
                 v.extend(l(&["deliver 6", "tick 3", "crecover", "deliver 9", "deliver 10", "ccomplete_abort 1", "cforce 1 0", "crecover"]));
+                // T2 is Preparing with a NO vote on record: force_resolve(commit) is refused, force_resolve(abort) goes through
+                v.push(b(&[0, 1], &["p1=2", "p3=2"], &[1, 2]));
+                v.extend(l(&["cvote 2 0 n -", "cforce 2 1", "cforce 2 0"]));
                 v
             }),
         ];
@@ -2329,9 +2479,6 @@ fn main() {
         rep.observe(json!({"stream": "coord-recovery random schedules", "monitor_hits_by_class": hits,
             "note": "with recover / complete_* / force_resolve in the alphabet decisions can change (cleanup_timeouts and abort() have no phase test, force_resolve's all_yes is vacuous over the votes present); by design these are not violations of C03"}));
     }
-
-    // ---- two real threads inside record_vote (observation)
-    record_vote_race(&mut rep);
 
     // ---- duplicate prepare + duplicate commit after another tx committed the same key: re-applies
     //      the first tx's writes (not excluded by C03's statement; reported as an observation)
